@@ -9,7 +9,7 @@ L. library correspondence (ties the model's pathlib layer; independent of the re
    `".." in s`, `s.strip("/")`  vs  `Model.PathSec` (driver command `pathlib`).
 P. POST, bounded-exhaustive: every path of <= N segments over the POST alphabet, relative and absolute spelling
    (the 8 kinds of the property + the root's own name + '~')
-   x {/script f, /directory f, /directory d, /lineage f} x {POST, OPTIONS, PUT, GET} x 2 root settings; plus mixed
+   x {/script f, /directory f, /directory d, /lineage f} x {POST, OPTIONS, PUT, GET} x 3 root settings; plus mixed
    payloads (f and d, f and e, d on /script).  Status and a canonical body classification are compared with the model
    of the REPAIRED code (driver command `pathbatch`).
 G. GET, bounded-exhaustive: every PATH_INFO of <= N segments over the GET alphabet, with and without leading slash.
@@ -172,6 +172,9 @@ class App:
         return [
             {"name": "A: root_path absolute, cwd = root/child", "cwd": t.R + "/child", "root_path": t.R},
             {"name": "B: root_path relative and un-normalised ('child/..'), cwd = root", "cwd": t.R, "root_path": "child/.."},
+            # the working directory OUTSIDE the root: relative spellings are then anchored outside it (a check that resolves
+            # them against the root instead of the working directory would pass `outside/f.sql`)
+            {"name": "C: root_path absolute, cwd = parent of the root (outside it)", "cwd": t.T, "root_path": t.R},
         ]
 
     def use(self, setting):
@@ -779,7 +782,7 @@ def run(chk):
         level="proof",
         rule="P: every path of <= N segments over post_alphabet, as relative spelling (cwd inside the tree) and as absolute "
              "spelling (cwd + '/' + path), x {/script f, /directory f, /directory d, /lineage f} x POST (all lengths) and "
-             "OPTIONS/PUT/GET (short paths) x 2 root settings, plus the D22/D23 witnesses and mixed payloads (M); G: every PATH_INFO "
+             "OPTIONS/PUT/GET (short paths) x 3 root settings, plus the D22/D23 witnesses and mixed payloads (M); G: every PATH_INFO "
              "of <= N segments over get_alphabet with and without leading slash; L: pathlib layer vs library.  Real app "
              "in-process vs Lean model of the repaired code (status + canonical body class), and an oracle on the "
              "implementation alone (token of anything outside the entitled root in the body).  non-trivial = the request "
